@@ -425,7 +425,7 @@ def _ripemd(ctx):
     sub10 = ctx.__class__('C05', ctx.tier, ctx.p, ctx.seed)
     C10.run(sub10)
     for o in sub10.obligations:
-        if (o.rule in ('C10.LOOPS', 'C10.ONEFORONE') and 'encode_base58' in o.construct) or o.rule in ('C10.WRITER', 'C10.TOTAL'):
+        if (o.rule in ('C10.LOOPS', 'C10.ONEFORONE', 'C10.RUN') and 'encode_base58' in o.construct) or o.rule in ('C10.WRITER', 'C10.TOTAL'):
             o.rule = 'C05.B58-%s(=C10)' % o.rule.split('.')[1]
             ctx.obligations.append(o)
 
